@@ -15,6 +15,7 @@ ZERO = ('INDENT', 'DEDENT', 'ENDMARKER')
 NAME_MENU = ['_x1', '\xe9', 'async_', 'l']
 NUMBER_MENU = ['0x1f', '1_0.5e3j', '0o7', '0', '1.', '.5']
 STRING_MENU = ['b"s"', "r'''s'''", '"""s"""', "u's'", '"s"']
+FSTRING_STRING_MENU = ['yield', 'a b', '#']
 
 
 def flatten(tree):
@@ -91,7 +92,7 @@ def intended(toks, spell=None):
             res.append((t, ''))
         elif t == 'NEWLINE':
             res.append((t, None))
-        elif spell and i in spell and t in ('NAME', 'NUMBER'):
+        elif spell and i in spell and t in ('NAME', 'NUMBER', 'FSTRING_STRING'):
             res.append((t, spell[i]))
         elif spell and i in spell and t == 'STRING':
             res.append((t, None))
@@ -311,7 +312,8 @@ class Generator:
 def deviations(toks):
     """one spelling/layout deviation per rendering: yields (label, kwargs for render, spell map)"""
     for i, t in enumerate(toks):
-        menu = NAME_MENU if t == 'NAME' else NUMBER_MENU if t == 'NUMBER' else STRING_MENU if t == 'STRING' else None
+        menu = NAME_MENU if t == 'NAME' else NUMBER_MENU if t == 'NUMBER' else STRING_MENU if t == 'STRING' else \
+            FSTRING_STRING_MENU if t == 'FSTRING_STRING' else None
         if menu:
             for alt in menu:
                 yield ('spell', dict(spell={i: alt}), {i: alt})
